@@ -157,6 +157,19 @@ func transformReplay(args []string) {
 	seen := map[string]bool{}
 	first := true
 
+	// one transformer per option combination is shared by all cases (as a resolver would), and every
+	// result is kept: results handed out earlier must not change when the transformer is used again
+	shared := map[string]*didtransformer.Transformer{}
+
+	type heldT struct {
+		res    *document.ResolutionResult
+		digest string
+		key    string
+		c      tCaseIn
+	}
+
+	var held []heldT
+
 	readTagged(os.Stdin, "CASE", fl.str("tlclog", ""), func(line []byte) {
 		if seen[string(line)] {
 			return
@@ -275,11 +288,20 @@ func transformReplay(args []string) {
 				opts = append(opts, didtransformer.WithMethodContext([]string{typeContexts["method-context"]}))
 			}
 
-			res, err := didtransformer.New(opts...).TransformDocument(&protocol.ResolutionModel{Doc: doc},
+			tk := fmt.Sprintf("%v/%v", c.Base, c.MethodCtx)
+			if shared[tk] == nil {
+				shared[tk] = didtransformer.New(opts...)
+			}
+
+			res, err := shared[tk].TransformDocument(&protocol.ResolutionModel{Doc: doc},
 				protocol.TransformationInfo{"id": tDID, "published": true})
 			if err != nil {
 				fail("transform-error", err.Error(), nil, nil)
 				return
+			}
+
+			if len(held) < 4000 {
+				held = append(held, heldT{res, digestJSON(res), k, tc.C})
 			}
 
 			out := generic(res.Document).(map[string]interface{})
@@ -546,6 +568,13 @@ func transformReplay(args []string) {
 			}
 		}
 	})
+
+	for _, h := range held {
+		if digestJSON(h.res) != h.digest {
+			col.report(mismatch{Kind: "result-changed-later", Key: "result-changed-later:" + h.key, Case: h.c,
+				Detail: "a resolution result handed out earlier was modified by later calls on the same transformer", Actual: h.res})
+		}
+	}
 
 	col.finish()
 }
